@@ -771,7 +771,7 @@ class Run:
             task = 'live'
         return {
             'state': LABEL[p.state], 'paused': p.paused, 'killing': p.is_killing, 'status': mval(p.status),
-            'fut': fut, 'closed': bool(p._closed), 'task': task, 'outputs': flat_outputs(p.outputs),
+            'fut': fut, 'closed': is_closed(p), 'task': task, 'outputs': flat_outputs(p.outputs),
             'acc': accessors(p), 'acts': [act_status(a) for a in _ACTS],
             'rpcs': [self.reply_status(f) for f in self.replies],
             'n2': self.n2[0] if self.use_listener else None,
@@ -825,6 +825,19 @@ def observables(p):
 
 class _AnyPid:
     def __eq__(self, other):
+        return True
+
+
+def _noop():
+    pass
+
+
+def is_closed(p):
+    """Closedness through the public API: add_cleanup refuses a closed process (a no-op cleanup is harmless otherwise)."""
+    try:
+        p.add_cleanup(_noop)
+        return False
+    except plumpy.ClosedError:
         return True
 
 
